@@ -22,7 +22,7 @@
                                      name already declared in this module is skipped), the port itself when no pin
                                      is connected; [msb:lsb] by _write_brackets_defining;
      _write_module_body_cables       the cables in REVERSE order, type, range, name;
-     _write_assignment               assign o = i for the single-bit assignment instances;
+     _write_assignment               assign o = i, one slice per side, for the assignment instances of any width;
      _write_module_body_instance     attributes, #(.k(v)) or defparam statements after the instance, the named port
                                      map over reference.ports: empty / id / id[i] / id[h:l] / {...} by
                                      _write_instance_port (VExpr.emit_port: _is_pinset_concatenated, the last-non-None
@@ -30,8 +30,7 @@
 
    Outcomes. WOk d | WErr e (the class of the Python exception the composer raises) | WUnsup u: the netlist is
    outside the modelled subset - nothing is claimed, the harness counts and skips these:
-     - a multi-bit assignment instance (open finding V04-assign-compose-assert; its pin order is being repaired),
-       an assignment instance with an unconnected pin;
+     - an assignment instance of width 0 or with an unconnected pin;
      - a port without a name on a module that is written or instantiated (open finding V04-unnamed-ports-unwritable);
      - a name that is neither a simple identifier nor an escaped identifier without blanks (what the text of such a
        name is as a token is not a document-level question; open finding V04-unescaped-hierarchical-names);
@@ -46,7 +45,6 @@ Import ListNotations.
 Open Scope Z_scope.
 
 Inductive wunsup :=
-| WMultiAssign     (* assignment instance wider than one bit *)
 | WAssignShape     (* assignment instance of width 0 or with an unconnected pin *)
 | WUnnamedPort     (* a port known by its position only *)
 | WName            (* a name whose token is not the name *)
@@ -202,18 +200,31 @@ Definition emit_cable (c : nv_cable) : wres vitem :=
 Definition bit_wire (d : nv_def) (r : bitref) : wres wire :=
   match cable_idx d (fst r) with Some c => WOk (c, snd r) | None => WUnsup WValue end.
 
-(* _write_assignment on an instance of SDN_VERILOG_ASSIGNMENT_1 *)
-Definition emit_assign (d : nv_def) (prs : list (option bitref * option bitref)) : wres vitem :=
+(* the (o wire, i wire) of the pins of an assignment instance, pin 0 first; every pin must be connected *)
+Fixpoint assign_wires (d : nv_def) (prs : list (option bitref * option bitref)) : wres (list (wire * wire)) :=
   match prs with
-  | [(Some o, Some i)] =>
+  | [] => WOk []
+  | (Some o, Some i) :: r =>
       let+ ow := bit_wire d o in
       let+ iw := bit_wire d i in
-      match write_assign (def_env d) [(ow, iw)] with
+      let+ rest := assign_wires d r in
+      WOk ((ow, iw) :: rest)
+  | _ :: _ => WUnsup WAssignShape
+  end.
+
+(* _write_assignment on an instance of SDN_VERILOG_ASSIGNMENT_w, any w >= 1 (VExpr.write_assign): one slice per side,
+   out_wires[0] .. out_wires[-1] of the cable of the first pin; AssertionError when _is_pinset_concatenated finds the
+   pins of one side on several cables or not ascending one by one (open finding V04-assign-not-one-slice) or when
+   _write_brackets rejects the bounds *)
+Definition emit_assign (d : nv_def) (prs : list (option bitref * option bitref)) : wres vitem :=
+  match prs with
+  | [] => WUnsup WAssignShape
+  | _ =>
+      let+ pins := assign_wires d prs in
+      match write_assign (def_env d) pins with
       | Some (l, r) => WOk (IAssign (piece_atom d l) (piece_atom d r))
       | None => WErr EAssert
       end
-  | [] | [_] => WUnsup WAssignShape
-  | _ => WUnsup WMultiAssign
   end.
 
 (* ---------- instances ---------- *)
@@ -360,7 +371,16 @@ Definition nets_incl_b (a b : nv_def) : bool :=
 
 (* the comparison of the property on one module: ordered ports (name, direction, width, lower index), the instances
    by name (definition, parameters, attributes), the connectivity bit by bit *)
+Definition obit_eqb (a b : option bitref) : bool :=
+  match a, b with Some x, Some y => bitref_eqb x y | None, None => true | _, _ => false end.
+Definition opair_eqb (a b : option bitref * option bitref) : bool := obit_eqb (fst a) (fst b) && obit_eqb (snd a) (snd b).
+(* the assignment instances: per pin (o bit, i bit), as lists up to order, same number *)
+Definition assigns_b (a b : nv_def) : bool :=
+  incl_b (list_eqb opair_eqb) (nd_assigns a) (nd_assigns b) && incl_b (list_eqb opair_eqb) (nd_assigns b) (nd_assigns a)
+  && Nat.eqb (length (nd_assigns a)) (length (nd_assigns b)).
+
 Definition same_conn_def_b (a b : nv_def) : bool :=
+  assigns_b a b &&
   str_eqb (nd_name a) (nd_name b)
   && list_eqb port_eqb (nd_ports a) (nd_ports b)
   && incl_b inst_eqb (nd_insts a) (nd_insts b) && incl_b inst_eqb (nd_insts b) (nd_insts a)
@@ -385,11 +405,13 @@ Definition insts_in (a b : list nv_inst) : Prop :=
     same_set (ni_params i) (ni_params j) /\ same_set (ni_attrs i) (ni_attrs j).
 
 (* the comparison of the property on one module: the ordered ports with direction, width and lower index, the
-   instances by name, and bit by bit the same connectivity (VDoc.net_of: the endpoints joined to a net bit) *)
+   instances by name, bit by bit the same connectivity (VDoc.net_of: the endpoints joined to a net bit), and the same
+   assignment instances (per pin the o bit and the i bit), as many of them *)
 Definition same_conn_def (a b : nv_def) : Prop :=
   nd_name a = nd_name b /\ nd_ports a = nd_ports b /\
   insts_in (nd_insts a) (nd_insts b) /\ insts_in (nd_insts b) (nd_insts a) /\
-  (forall r, same_set (net_of r a) (net_of r b)).
+  (forall r, same_set (net_of r a) (net_of r b)) /\
+  same_set (nd_assigns a) (nd_assigns b) /\ length (nd_assigns a) = length (nd_assigns b).
 
 (* same top, and every module the writer writes under the options comes back with the same connectivity *)
 Definition same_conn (o : vopts) (n n' : nv) : Prop :=
